@@ -41,7 +41,7 @@ func (c13) Gen(seed int64, tier string, avoid []string) *Plan {
 		cfg.KSeed = append(cfg.KSeed, r.Int63())
 	}
 	p.PoolDrop = pick(r, 0, 0, 200)
-	opt := rigTrafficOpts{nackBias: true}
+	opt := rigTrafficOpts{nackBias: true, bigPayload: chance(r, 300)}
 	for _, k := range cfg.Kinds {
 		if k == "jitterbuffer" {
 			opt.longRemote = 60 + r.Intn(60) // the jitter buffer starts emitting after 50 packets
@@ -87,6 +87,9 @@ func genRigTraffic(r interface {
 			at += int64(pick(rr, 50, 300, 1000, 4000))
 		}
 		maxLen := 1460
+		if o.bigPayload {
+			maxLen = pick(rr, 1460, 1461, 1500, 3000) // beyond the size the pooled buffers of some members hold
+		}
 		switch c := rr.Intn(100); {
 		case c < 45:
 			op := RigOp{K: "w", S: rr.Intn(nl), AtUs: at, HS: rr.Int63(), Len: pick(rr, 0, 1, 20, 300, 1200, maxLen)}
